@@ -23,7 +23,7 @@ var (
 	c08Bound  = flag.Int("bound", 2, "preemption bound of the exhaustive part")
 	c08Cap    = flag.Int("cap", 300, "cap on explored schedules per request set")
 	c08Random = flag.Int("random", 40, "random schedules per request set beyond the bound")
-	c08Kinds  = flag.String("kinds", "dup,inbox,like,follow,add,outbox,forward2,add2,remove2,likebad,accept2,refused,faulty", "request-set kinds")
+	c08Kinds  = flag.String("kinds", "dup,inbox,like,follow,add,outbox,forward2,add2,remove2,likebad,accept2,refused,updlike,faulty", "request-set kinds")
 )
 
 type abortSignal struct{}
@@ -488,6 +488,18 @@ func genReqSet(r *rng, kind string, k int) reqSet {
 			a := inboxAct("Create", j, remoteActors[j%3])
 			a["object"] = jmap{"type": "Note", "id": fmt.Sprintf("%s/notes/c%d-%d", remote, k, j), "content": "x"}
 			rs.reqs = append(rs.reqs, inboxScenario("conc:refused", w, cfg, a))
+		}
+	case "updlike": // a client Update of an owned note while peers like and announce it: the note's likes / shares survive the Update
+		obj := local + "/notes/1"
+		w.Store[obj]["likes"] = jmap{"type": "Collection", "id": obj + "/likes"}
+		w.Store[obj]["shares"] = jmap{"type": "OrderedCollection", "id": obj + "/shares"}
+		b := jmap{"@context": asCtx, "type": "Update", "actor": alice, "to": remoteActors[0],
+			"object": jmap{"type": "Note", "id": obj, "content": fmt.Sprintf("edited c%d", k), "summary": "edited"}}
+		rs.reqs = append(rs.reqs, outboxScenario("conc:updlike", w, cfg, b))
+		for i := 0; i < 2; i++ {
+			a := inboxAct([]string{"Like", "Announce"}[(k+i)%2], i, remoteActors[i])
+			a["object"] = obj
+			rs.reqs = append(rs.reqs, inboxScenario("conc:updlike", w, cfg, a))
 		}
 	case "faulty": // two Follows of one actor (automatic Accept) and a client Note addressed to that actor, one of the three with
 		// one failing call - at every position in turn: whatever a failure leaves behind, the other requests complete and their
